@@ -145,13 +145,25 @@ Definition hist_inv (s : st) : Prop :=
 
 Lemma step_inv s o : hist_inv s -> hist_inv (step s o).
 Proof.
-  intros [Ho Hp]. destruct o as [p|orc]; cbn [step].
+  intros [Ho Hp]. destruct o as [p|orc|f]; cbn [step].
   - split; cbn [txq log queued].
     + intros d. rewrite app_assoc, to_app, Ho, <- to_app. reflexivity.
     + rewrite app_assoc. apply Permutation_app_tail. exact Hp.
   - destruct (service (txq s) orc) as [q' sent] eqn:Hs. split; cbn [txq log queued].
     + intros d. rewrite <- app_assoc, to_app, (service_order _ _ _ _ Hs d), <- to_app. apply Ho.
     + rewrite <- app_assoc. rewrite (service_perm _ _ _ _ Hs). exact Hp.
+  - assert (E : forall q' sent, once (txq s) f = (q', sent) -> sent ++ q' = txq s).
+    { unfold once. intros q' sent H. destruct (txq s) as [|p q]; [inversion H; reflexivity|].
+      destruct f; inversion H; reflexivity. }
+    destruct (once (txq s) f) as [q' sent] eqn:Hs. specialize (E _ _ eq_refl).
+    split; cbn [txq log queued]; rewrite <- app_assoc, E; [exact Ho|exact Hp].
+Qed.
+
+(* the single-packet service never reorders the queue: what is sent is a prefix of the queue, the rest follows *)
+Lemma once_prefix q f q' sent : once q f = (q', sent) -> sent ++ q' = q /\ (length sent <= 1)%nat.
+Proof.
+  unfold once. destruct q as [|p q]; intros H; [inversion H; split; [reflexivity|cbn; lia]|].
+  destruct f; inversion H; split; try reflexivity; cbn; lia.
 Qed.
 
 Lemma run_inv_from ops : forall s, hist_inv s -> hist_inv (fold_left step ops s).
